@@ -30,11 +30,11 @@ class Deep:
 SKEL = '''
 class G_{k}(Component):
   def construct(s):
-    s.i = InPort(8); s.o = OutPort(8); s.o2 = OutPort(8); s.w = Wire(8)
+    s.i = InPort(8); s.o = OutPort(8); s.o2 = OutPort(8); s.w = Wire(8); s.t0 = Wire(8); s.t1 = Wire(8); s.t2 = Wire(8); s.t3 = Wire(8)
 {G_DECL}{G}
 class Leaf_{k}(Component):
   def construct(s):
-    s.i = InPort(8); s.o = OutPort(8); s.o2 = OutPort(8); s.w = Wire(8)
+    s.i = InPort(8); s.o = OutPort(8); s.o2 = OutPort(8); s.w = Wire(8); s.t0 = Wire(8); s.t1 = Wire(8); s.t2 = Wire(8); s.t3 = Wire(8)
     s.g = G_{k}()
 {Leaf_DECL}{Leaf}
 class Mid_{k}(Component):
@@ -93,10 +93,19 @@ for pos, pre in POS.items():
 # the rule is per (block, signal): the owner reading its own wire does not make an outside read legal
 OWNER_READS_LEAF = ["@update\ndef leaf_self(): s.o2 @= s.w"]
 OWNER_READS_G = ["@update\ndef g_self(): s.o2 @= s.w"]
+# several owner blocks reading the wire (whichever block a checker happens to look at first, the outside read stays illegal)
+OWNER_READS_LEAF4 = [f"@update\ndef leaf_self{j}(): s.t{j} @= s.w + {j}" for j in range(4)]
+OWNER_READS_G4 = [f"@update\ndef g_self{j}(): s.t{j} @= s.w ^ {j}" for j in range(4)]
 case('port-rule/read', 'read Wire of child that the child reads itself', 'SignalTypeError',
      Mid=["@update\ndef blk(): s.t @= s.a.w", "@update\ndef other(): s.o @= s.i + 1"], Leaf=OWNER_READS_LEAF)
 case('port-rule/read', 'read Wire of grandchild that the grandchild reads itself', 'SignalTypeError',
      Mid=["@update\ndef blk(): s.t @= s.a.g.w", "@update\ndef other(): s.o @= s.i + 1"], G=OWNER_READS_G)
+case('port-rule/read', 'read Wire of child that four blocks of the child read', 'SignalTypeError',
+     Mid=["@update\ndef blk(): s.t @= s.a.w", "@update\ndef other(): s.o @= s.i + 1"], Leaf=OWNER_READS_LEAF4)
+case('port-rule/read', 'read Wire of grandchild that four blocks of the grandchild read', 'SignalTypeError',
+     Mid=["@update\ndef blk(): s.t @= s.a.g.w", "@update\ndef other(): s.o @= s.i + 1"], G=OWNER_READS_G4)
+case('port-rule/read', 'two outside blocks read the child wire the child reads too', 'SignalTypeError',
+     Mid=["@update\ndef blk(): s.t @= s.a.w", "@update\ndef blk2(): s.o @= s.b.w + s.i"], Leaf=OWNER_READS_LEAF4)
 case('port-rule/read', 'own Wire read by two blocks of the owner', None,
      Mid=["@update\ndef blk(): s.t @= s.w", "@update\ndef other(): s.o @= s.w + 1", "@update\ndef drv(): s.w @= s.i"])
 case('port-rule/write', 'write Wire of child that the child writes itself', 'SignalTypeError|MultiWriterError',
